@@ -59,7 +59,7 @@ func genFacts(repo, outdir string) {
 					var calls []string
 					ast.Inspect(fd.Body, func(n ast.Node) bool {
 						if ce, ok := n.(*ast.CallExpr); ok {
-							calls = append(calls, types.ExprString(ce.Fun))
+							calls = append(calls, types.ExprString(ce))
 						}
 						return true
 					})
@@ -99,6 +99,24 @@ func genFacts(repo, outdir string) {
 			fmt.Fprintf(&sb, "%q", c)
 		}
 		sb.WriteString("]\n\n")
+	}
+	// template facts: the compiled-in Go strings equal the .templ files, and both end with the epilogue slot
+	for _, t := range [][3]string{{"goCode", "Builder/goCode.templ", "Builder/GoCodeTemplate.go"}, {"goObject", "Builder/goObject.templ", "Builder/GoObjectTemplate.go"}} {
+		templ, err1 := os.ReadFile(repo + "/" + t[1])
+		gosrc, err2 := os.ReadFile(repo + "/" + t[2])
+		if err1 != nil || err2 != nil {
+			panic("template files missing")
+		}
+		// the Go file is `package builder\n\nconst xxx = ` + "`" + text with "`" spliced as ` + "`" + ` + "`"
+		g := string(gosrc)
+		i := strings.Index(g, "`")
+		j := strings.LastIndex(g, "`")
+		body := ""
+		if i >= 0 && j > i {
+			body = g[i+1 : j] // the .templ files spell an embedded backquote the way the Go string does
+		}
+		fmt.Fprintf(&sb, "def templ_%s_same_as_go_string : Bool := %v\n", t[0], strings.TrimPrefix(body, "\n") == string(templ))
+		fmt.Fprintf(&sb, "def templ_%s_ends_with_epilogue : Bool := %v\n\n", t[0], strings.HasSuffix(strings.TrimRight(body, "\n"), "{{.CodeLast}}"))
 	}
 	sb.WriteString("end Gen\n")
 	writeIfChanged(outdir+"/Facts.lean", sb.String())
